@@ -116,7 +116,7 @@ C14_PART = (G, "gosym_part", dict(name="c14_type_plans", entry="internal/zzverif
 
 C08X_ASSUME = ["expression trees: leaf | -e | e as T | e op e with op in {+,-,*,/,**}; family 0: every tree of nesting depth <= d over field leaves (each leaf a different field, "
                "int and double fields alternating so that validation inserts implicit conversions); family 1: every tree of depth <= l whose leaves are fields, the negative integer "
-               "literal -3, the floating-point literal 1.5, a field of a nested record (sub.innerValue) or another computed field; quick d=2, l=1; thorough d=3, l=2 (only one operand of a depth-3 binary operator, in the literal family of a depth-2 one, is deeper than 1)",
+               "literal -3, the floating-point literal 1.5, a field of a nested record (sub.innerValue) or another computed field; quick d=2, l=1; thorough d=3, l=2 (of a depth-3 binary operator, in the literal family of a depth-2 one, only one operand is deep, the other two levels shallower: about 35 000 trees)",
                "the operand of a unary minus is never a literal (the expression parser folds -literal into the literal); conversions to int, float, double, long",
                "subscripts, size()/dimension functions and switch expressions are outside this part (C10 forms / pysym C19 cover them differently)",
                "reader grammars: C++ [expr] precedence table (unary > * / % > + - > shifts > relational > equality > & ^ | && ||, all left-associative; maximal munch, so `--` / `++` are "
